@@ -11,7 +11,11 @@ import progs as P
 COQ_FILES = ("L4_Eval/DdsEval.v", "L4_Eval/RunEval.v", "L4_Eval/EvalProofs.v", "Properties/C10.v")
 EXTRACTED = ("ConstHash", "ConstSig")
 ALLOWED_AXIOMS = ()
-KINDS = ["Exception", "ValueError", "KeyboardInterrupt", "SystemExit", "BaseException"]
+KINDS = ["Exception", "ValueError", "KeyboardInterrupt", "SystemExit", "BaseException",
+         # exceptions created by the interpreter itself (progs.make_exc provokes them): Python's own classes, arguments and messages
+         "TypeError/missing-argument", "TypeError/unexpected-keyword", "TypeError/multiple-values", "TypeError/too-many-positional",
+         "TypeError/not-callable", "TypeError/operand", "AttributeError", "KeyError", "IndexError", "ZeroDivisionError", "StopIteration", "FileNotFoundError",
+         "UnicodeDecodeError", "NameError", "RecursionError"]
 
 # The configuration of dds under which a history is run.  The property does not mention it: whatever the configuration, the
 # very exception object must come out, nothing may be stored / committed, and the following evaluations must not notice.
@@ -65,7 +69,7 @@ def plan(seed, tier="quick"):
     call = P.root_call(prog, rng)
     reach = P.reachable(prog, *prog["root"])
     victim = rng.choice(reach)
-    kind = rng.choice(KINDS)
+    kind = KINDS[(seed % 1000) % len(KINDS)] if (seed % 1000) < len(KINDS) else rng.choice(KINDS)      # every class once, then at random
     bad = copy.deepcopy(prog)
     P.find_func(bad, *victim)["raises"] = kind
     # the failing evaluation, the same evaluation again (must fail again, nothing cached), the repaired pipeline,
@@ -207,7 +211,7 @@ def judge(rep, pl, base, variants):
 
 
 def run(rep, tier, seed, proof_ok):
-    n = 14 if tier == "quick" and proof_ok else 120
+    n = 24 if tier == "quick" and proof_ok else 120
     rep.rule = (f"{n} random pipelines x a reachable function chosen to raise x exception classes {KINDS}; history: failing evaluation, the "
                 "same again, another pipeline in the same process, then the repaired pipeline twice; checks: the very exception object "
                 "propagates, no blob is stored under any signature of the failing function or of a function waiting for it, no path is "
